@@ -97,6 +97,18 @@ type Fold struct {
 	Src          string
 }
 
+// Orbit is a user-defined forward-recursive specification function over a byte slice: the first position reached
+// from p by repeatedly applying next at which stop holds:
+//   name(s, p) = p                      if stop(s, p)
+//              = name(s, next(s, p))    otherwise
+// (scanner loops that advance by variable-length units: "the first unescaped quote", "the end of the identifier").
+type Orbit struct {
+	Name        string
+	S, P        string
+	Stop, Next  Expr
+	Src         string
+}
+
 type Pred struct {
 	Name   string
 	Params []string
@@ -115,6 +127,7 @@ type Specs struct {
 	WalkDirectives []string
 	Ghosts    map[string]int // ghost (uninterpreted) spec functions: name -> arity
 	Folds     map[string]*Fold
+	Orbits    map[string]*Orbit
 	GhostFields map[string]bool // mutable ghost state per object: heap array G.<name>, read as name(obj)
 }
 
@@ -123,7 +136,7 @@ func NewSpecs() *Specs {
 }
 
 var clauseKeywords = map[string]bool{
-	"pred": true, "func": true, "extern": true, "ghost": true, "ghostfield": true, "fold": true, "iface": true, "walk": true, "requires": true, "ensures": true, "preserves": true, "loop": true,
+	"pred": true, "func": true, "extern": true, "ghost": true, "ghostfield": true, "fold": true, "orbit": true, "iface": true, "walk": true, "requires": true, "ensures": true, "preserves": true, "loop": true,
 	"funcparam": true, "mapspec": true, "assumefacet": true, "readonly": true, "dyncall": true, "inline": true, "trusted": true, "verifybody": true, "opaque": true, "noverify": true, "modifies": true, "pure": true, "arith": true, "axiom": true,
 }
 
@@ -311,6 +324,32 @@ func (S *Specs) parseFile(path string) error {
 			}
 			fname := strings.TrimSpace(head[:op])
 			S.Folds[fname] = &Fold{Name: fname, S: strings.TrimSpace(ps[0]), K: strings.TrimSpace(ps[1]), Acc: strings.TrimSpace(ps[2]), Init: ie, Step: se, Src: rest}
+			cur = nil
+		case "orbit":
+			// orbit name(s, p) stop STOP next NEXT
+			op, cl := strings.Index(rest, "("), strings.Index(rest, ")")
+			si := strings.Index(rest, " stop ")
+			ni := strings.LastIndex(rest, " next ")
+			if op < 0 || cl < op || si < cl || ni < si {
+				return fail(fmt.Errorf("orbit name(s, p) stop STOP next NEXT"))
+			}
+			ps := strings.Split(rest[op+1:cl], ",")
+			if len(ps) != 2 {
+				return fail(fmt.Errorf("orbit takes two parameters (slice, position)"))
+			}
+			se, err := ParseExpr(strings.TrimSpace(rest[si+6 : ni]))
+			if err != nil {
+				return fail(err)
+			}
+			ne, err := ParseExpr(strings.TrimSpace(rest[ni+6:]))
+			if err != nil {
+				return fail(err)
+			}
+			if S.Orbits == nil {
+				S.Orbits = map[string]*Orbit{}
+			}
+			oname := strings.TrimSpace(rest[:op])
+			S.Orbits[oname] = &Orbit{Name: oname, S: strings.TrimSpace(ps[0]), P: strings.TrimSpace(ps[1]), Stop: se, Next: ne, Src: rest}
 			cur = nil
 		case "ghostfield":
 			// ghostfield name: mutable ghost state attached to objects (heap array G.name indexed by the object's address);
